@@ -21,14 +21,13 @@ from labella.scale import LinearScale
 EPS = 2.0 ** -52
 MANTS = (1, 2, 5)
 
-SCOPE = ("all ordered pairs a != b of a signed value grid (0, 1e-6 .. 1e9; 29 values quick / 47 thorough) that satisfy the "
-         "quantifier (|end| in {0} u [1e-6,1e9], 1e-9 <= span <= 1e12, span >= 1e-6*max|end|) x m in a 23-value list (quick) / "
-         "1..100 (thorough) and the default; plus domains placed on and one ulp around the step thresholds 0.15/0.35/0.75 "
+SCOPE = ("all ordered pairs a != b of a signed value grid (0, 1e-6 .. 1e9; 29 values quick / 53 thorough) that satisfy the "
+         "quantifier (|end| in {0} u [1e-6,1e9], 1e-9 <= span <= 1e12, span >= 1e-6*max|end|) x every m in 1..100 "
+         "and the default; plus domains placed on and one ulp around the step thresholds 0.15/0.35/0.75 "
          "and on exact multiples of the step; then seeded random domains x m until the time budget")
 
 GRID_QUICK = [1e-6, 0.001, 0.1, 0.3, 0.7, 1.0, 2.5, 7.0, 10.0, 99.5, 1000.0, 12345.678, 1e6, 1e9]
 GRID_THOROUGH = GRID_QUICK + [3.3e-6, 0.0123, 0.5, 0.9, 1.1, 3.0, 36.6, 64.0, 999.999, 5e7, 123456789.0 / 1, 9.99e8 + 0.5]
-M_QUICK = [None, 1, 2, 3, 4, 5, 6, 7, 8, 9, 10, 11, 12, 15, 20, 25, 30, 40, 50, 64, 75, 99, 100]
 M_ALL = [None] + list(range(1, 101))
 
 
@@ -309,7 +308,7 @@ def one(run, a, b, m):
 def body(run):
     quick = run.tier == "quick"
     grid = GRID_QUICK if quick else GRID_THOROUGH
-    ms = M_QUICK if quick else M_ALL
+    ms = M_ALL
     doms = grid_domains(grid)
     done = True
     for i, (a, b) in enumerate(doms):
